@@ -46,6 +46,12 @@ def special_scenarios():
                 "cmds": [{"kind": "rq30c9", "idx": i, "prio": 0, "max_retries": 3, "timeout": 20_000_000, "wfr": False} for i in range(3)],
                 "events": [(0, ("made",)), (G, ("call", 0)), (2 * G, ("call", 1)), (3 * G, ("call", 2))], "plan": [],
                 "default_plan": {"lat": 0, "fail": False, "echo": None, "rply": None}})
+    # two callers send the SAME frame; the queued one times out while the first is still retrying
+    out.append({"lifo": False, "mode": False,
+                "cmds": [{"kind": "rq30c9", "idx": 1, "prio": 0, "max_retries": 3, "timeout": 20_000_000, "wfr": False},
+                         {"kind": "rq30c9", "idx": 1, "prio": 0, "max_retries": 3, "timeout": 2 * G, "wfr": False}],
+                "events": [(0, ("made",)), (G, ("call", 0)), (2 * G, ("call", 1))], "plan": [],
+                "default_plan": {"lat": 0, "fail": False, "echo": None, "rply": None}})
     return out
 
 
@@ -152,6 +158,16 @@ def oracle(ctx: Ctx, pid: str, s, tr, st, qs, info) -> None:
                 sig = "tx-after-answer:transport-delayed-write" if slow else "tx-after-answer:other"
                 ctx.violation(sig, "a command was transmitted after its caller had been answered",
                               {**case, "cmd": i, "writes": writes[i], "answered_at": dones[i][0][1]}, "schedule")
+        # no fewer: an FSM failure BEFORE the caller's own deadline means the whole budget was used
+        quiet = (not any(p["fail"] for p in s["plan"]) and not slow and not any(ev[0] == "lost" for _, ev in s["events"]))
+        if quiet:
+            for i, t0 in calls.items():
+                c = cmds[i]
+                if dones[i] and dones[i][0][0] == 3 and writes[i] and dones[i][0][1] < t0 + min(c["timeout"], 20_000_000):
+                    limit = 1 + min(c["max_retries"], 3)
+                    if len(writes[i]) < limit:
+                        ctx.violation("given-up-before-budget-used", "a command failed before its timeout although it had been transmitted fewer than 1 + min(max_retries, 3) times",
+                                      {**case, "cmd": i, "writes": writes[i], "limit": limit, "failed_at": dones[i][0][1]}, "schedule")
         # the plain ladder: single caller, nothing answers, no transport latency, generous timeout
         if (len(cmds) == 1 and not s["plan"] and s["default_plan"]["echo"] is None and not slow and cmds[0]["timeout"] >= 16_000_000
                 and len(s["events"]) == 2):
